@@ -28,6 +28,13 @@ def _lazy_run(make, n_in, expect, reads_per_output=True):
             return "output %d available after %d reads (sample-wise stage: k+1=%d)" % (k, src.pulled, k + 1)
     if got != expect:
         return "got %r, property says %r" % (got, expect)
+    # the same through re-iterable containers given directly (a contract models its input as one iterator)
+    for kind in (list, tuple):
+        r = outcome(lambda: list(itertools.islice(iter(make(kind(n_in))), len(expect) + 2)))
+        if r[0] == "raise":
+            return "raised %s on a %s input" % (r[1], kind.__name__)
+        if r[1] != expect:
+            return "on a %s input: got %r, property says %r" % (kind.__name__, r[1], expect)
     return None
 
 
